@@ -1,8 +1,11 @@
-(* Proofs about Models/Vesting.v (C14). *)
+(* Proofs about Models/Vesting.v (C14): several vesting denoms in one list. *)
 From Coq Require Import ZArith List Bool Lia.
 From Elys Require Import Base.Res Models.Vesting.
 Import ListNotations.
 Open Scope Z_scope.
+
+(* split conjunctions only (never introduces the hypothesis of an implication) *)
+Ltac splits := repeat match goal with |- _ /\ _ => split end.
 
 (* ---------- arithmetic of the schedule ---------- *)
 
@@ -51,7 +54,7 @@ Qed.
 
 (* a zero-block schedule (governance may set NumBlocks = 0) is released in full by the first claim *)
 Lemma claim_entry_zero h v : wf_entry v -> v_num v = 0 ->
-  claim_entry true h v = Ok (v_total v - v_claimed v, mkV (v_total v) (v_total v) (v_start v) (v_num v)).
+  claim_entry true h v = Ok (v_total v - v_claimed v, mkV (v_total v) (v_total v) (v_start v) (v_num v) (v_den v)).
 Proof.
   intros [[Hc Ht] _] Hz. unfold claim_entry, vested_so_far. rewrite Hz. cbn [Z.leb Z.compare bind].
   destruct (v_total v <? v_claimed v) eqn:L; [apply Z.ltb_lt in L; lia|]. reflexivity.
@@ -68,21 +71,21 @@ Qed.
 Lemma claim_loop_total h vs : exists r, claim_loop true h vs = Ok r.
 Proof.
   induction vs as [|v r IH]; cbn [claim_loop]; [eauto|].
-  destruct (claim_entry_total h v) as [[c v'] ->]. cbn [bind]. destruct IH as [[cr r'] ->]. cbn [bind]. eauto.
+  destruct (claim_entry_total h v) as [[c v'] ->]. cbn [bind]. destruct IH as [[[c0 c1] r'] ->]. cbn [bind]. eauto.
 Qed.
 
 Lemma claim_total h a : exists a', claim h a = Ok a'.
-Proof. unfold claim, claim_gen. destruct (claim_loop_total h (a_vs a)) as [[c vs'] ->]. cbn [bind]. eauto. Qed.
+Proof. unfold claim, claim_gen. destruct (claim_loop_total h (a_vs a)) as [[[c0 c1] vs'] ->]. cbn [bind]. eauto. Qed.
 
 (* the clamped claim of one entry: never fails on a live entry, never decreases claimed, never
-   exceeds total, follows the linear schedule, complete at the end *)
+   exceeds total, follows the linear schedule, complete at the end; the denom tag is kept *)
 Lemma claim_entry_spec h v :
   live_entry v ->
   exists c v', claim_entry true h v = Ok (c, v') /\
     0 <= c /\
     v_claimed v' = v_claimed v + c /\
     v_claimed v <= v_claimed v' <= v_total v /\
-    v_total v' = v_total v /\ v_start v' = v_start v /\ v_num v' = v_num v /\
+    v_total v' = v_total v /\ v_start v' = v_start v /\ v_num v' = v_num v /\ v_den v' = v_den v /\
     (* linear block schedule *)
     v_claimed v' = Z.max (v_claimed v)
         (Z.quot (v_total v * Z.min (h - v_start v) (v_num v)) (v_num v)) /\
@@ -99,189 +102,329 @@ Proof.
     - apply Z.ltb_lt in L. rewrite Z.min_r by lia. reflexivity.
     - apply Z.ltb_ge in L. rewrite Z.min_l by lia. reflexivity. }
   destruct (x <? v_claimed v) eqn:L.
-  - apply Z.ltb_lt in L. exists 0, v. repeat split; try lia.
+  - apply Z.ltb_lt in L. exists 0, v. splits; try lia; try reflexivity.
     intros Hend. exfalso. rewrite Z.min_r in Hxe by lia. rewrite quot_full in Hxe by lia. lia.
   - apply Z.ltb_ge in L. eexists _, _. split; [reflexivity|]. cbn.
-    repeat split; try lia.
+    splits; try lia.
     intros Hend. rewrite Z.min_r in Hxe by lia. rewrite quot_full in Hxe by lia. lia.
+Qed.
+
+(* the same for ANY well-formed entry, zero-block schedules included (without the linear formula, which divides) *)
+Lemma claim_entry_wf h v :
+  wf_entry v ->
+  exists c v', claim_entry true h v = Ok (c, v') /\
+    0 <= c /\ v_claimed v' = v_claimed v + c /\ v_claimed v' <= v_total v /\
+    v_total v' = v_total v /\ v_start v' = v_start v /\ v_num v' = v_num v /\ v_den v' = v_den v /\
+    (v_num v <= h - v_start v -> v_claimed v' = v_total v).
+Proof.
+  intros Hwf. destruct (Z.eq_dec (v_num v) 0) as [Hz|Hnz].
+  - rewrite (claim_entry_zero h v Hwf Hz). destruct Hwf as [[? ?] ?].
+    eexists _, _. split; [reflexivity|]. cbn. splits; try lia; try (intros _; reflexivity).
+  - assert (Hn : 0 < v_num v) by (destruct Hwf as [_ ?]; lia).
+    destruct (claim_entry_spec h v (conj Hwf Hn)) as (c & v' & H1 & H2 & H3 & H4 & H5 & H6 & H7 & H8 & _ & H10).
+    exists c, v'. splits; try assumption; lia.
+Qed.
+
+(* what a claim pays for one entry, as a closed formula: the newly vested amount *)
+Definition vested_z (v : ventry) (h : Z) : Z :=
+  if v_num v <=? 0 then v_total v
+  else Z.quot (v_total v * Z.min (h - v_start v) (v_num v)) (v_num v).
+Definition newly (h : Z) (v : ventry) : Z := Z.max 0 (vested_z v h - v_claimed v).
+
+Lemma vested_so_far_z v h : vested_so_far v h = Ok (vested_z v h).
+Proof.
+  unfold vested_so_far, vested_z. destruct (v_num v <=? 0); [reflexivity|].
+  destruct (v_num v <? h - v_start v) eqn:L.
+  - apply Z.ltb_lt in L. rewrite Z.min_r by lia. reflexivity.
+  - apply Z.ltb_ge in L. rewrite Z.min_l by lia. reflexivity.
+Qed.
+
+Lemma claim_entry_newly h v : exists v', claim_entry true h v = Ok (newly h v, v').
+Proof.
+  unfold claim_entry, newly. rewrite vested_so_far_z. cbn [bind].
+  destruct (vested_z v h <? v_claimed v) eqn:L.
+  - apply Z.ltb_lt in L. exists v. rewrite Z.max_l by lia. reflexivity.
+  - apply Z.ltb_ge in L. eexists. rewrite Z.max_r by lia. reflexivity.
+Qed.
+
+(* ---------- per-denom outstanding ---------- *)
+
+Definition non0 (v : ventry) : bool := negb (is0 v).
+
+Lemma out_d_cons b v r :
+  out_d b (v :: r) = (if Bool.eqb (is0 v) b then v_total v - v_claimed v else 0) + out_d b r.
+Proof. reflexivity. Qed.
+
+Lemma out_d_nil b : out_d b [] = 0.
+Proof. reflexivity. Qed.
+
+Lemma out_d_app b x y : out_d b (x ++ y) = out_d b x + out_d b y.
+Proof. induction x as [|v r IH]; cbn [app]; rewrite ?out_d_cons, ?out_d_nil; lia. Qed.
+
+Lemma out_d_single b v : out_d b [v] = if Bool.eqb (is0 v) b then v_total v - v_claimed v else 0.
+Proof. rewrite out_d_cons, out_d_nil. lia. Qed.
+
+Lemma out_d_rev b x : out_d b (rev x) = out_d b x.
+Proof. induction x as [|v r IH]; cbn [rev]; [reflexivity|]. rewrite out_d_app, IH, out_d_single, out_d_cons. lia. Qed.
+
+Lemma out_d_nonneg b vs : Forall wf_entry vs -> 0 <= out_d b vs.
+Proof.
+  induction 1 as [|v r [[? ?] ?] _ IH]; [rewrite out_d_nil; lia|]. rewrite out_d_cons.
+  destruct (Bool.eqb (is0 v) b); lia.
 Qed.
 
 (* ---------- the claim loop ---------- *)
 
-Definition out_of (vs : list ventry) : Z := zsum (map (fun v => v_total v - v_claimed v) vs).
-
 Lemma claim_loop_spec h vs :
-  Forall live_entry vs ->
-  exists c vs', claim_loop true h vs = Ok (c, vs') /\
-    0 <= c /\ Forall live_entry vs' /\ out_of vs = out_of vs' + c /\
+  Forall wf_entry vs ->
+  exists c0 c1 vs', claim_loop true h vs = Ok (c0, c1, vs') /\
+    0 <= c0 /\ 0 <= c1 /\ Forall wf_entry vs' /\
+    out_d true vs = out_d true vs' + c0 /\ out_d false vs = out_d false vs' + c1 /\
     (length vs' <= length vs)%nat /\
+    (Forall (fun v => 0 < v_num v) vs -> Forall (fun v => 0 < v_num v) vs') /\
     (* after the end of every schedule nothing is left *)
-    (Forall (fun v => v_num v <= h - v_start v) vs -> vs' = [] /\ c = out_of vs).
+    (Forall (fun v => v_num v <= h - v_start v) vs ->
+       vs' = [] /\ c0 = out_d true vs /\ c1 = out_d false vs).
 Proof.
   induction vs as [|v r IH]; intros Hall.
-  - exists 0, []. cbn. repeat split; auto; lia.
+  - exists 0, 0, []. cbn [claim_loop]. rewrite !out_d_nil. splits; auto; try lia.
   - inversion Hall as [|? ? Hv Hr]; subst.
-    destruct (claim_entry_spec h v Hv) as (c & v' & Hce & Hc0 & Hcl & Hrange & Ht & Hs & Hn & _ & Hend).
-    destruct (IH Hr) as (cr & r' & Hlr & Hcr0 & Hr' & Hout & Hlen & Hendr).
+    destruct (claim_entry_wf h v Hv) as (c & v' & Hce & Hc0 & Hcl & Hle & Ht & Hs & Hn & Hd & Hend).
+    destruct (IH Hr) as (c0 & c1 & r' & Hlr & Hc00 & Hc10 & Hr' & Hout0 & Hout1 & Hlen & Hlive & Hendr).
     cbn [claim_loop]. rewrite Hce. cbn [bind]. rewrite Hlr. cbn [bind].
-    eexists _, _. split; [reflexivity|].
-    unfold out_of in *. cbn [map zsum].
+    eexists _, _, _. split; [reflexivity|].
+    assert (Hi : is0 v' = is0 v) by (unfold is0; rewrite Hd; reflexivity).
+    pose proof Hv as [[Hvc Hvt] Hvn].
+    rewrite !(out_d_cons _ v).
     destruct (v_claimed v' =? v_total v') eqn:E.
     + apply Z.eqb_eq in E.
-      split; [lia|]. split; [assumption|]. split; [lia|]. split; [cbn [length]; lia|].
-      intros Hf. inversion Hf as [|? ? Hfv Hfr]; subst. destruct (Hendr Hfr) as [-> ->].
-      split; [reflexivity|]. cbn. lia.
+      destruct (is0 v) eqn:D; cbn [Bool.eqb].
+      * splits; try lia; auto.
+        -- cbn [length]. lia.
+        -- intros Hf. inversion Hf; subst. auto.
+        -- intros Hf. inversion Hf as [|? ? Hfv Hfr]; subst. destruct (Hendr Hfr) as (-> & -> & ->).
+           rewrite !out_d_nil in *. splits; try reflexivity; lia.
+      * splits; try lia; auto.
+        -- cbn [length]. lia.
+        -- intros Hf. inversion Hf; subst. auto.
+        -- intros Hf. inversion Hf as [|? ? Hfv Hfr]; subst. destruct (Hendr Hfr) as (-> & -> & ->).
+           rewrite !out_d_nil in *. splits; try reflexivity; lia.
     + apply Z.eqb_neq in E.
-      split; [lia|]. split.
-      { constructor; auto. destruct Hv as [[[? ?] ?] ?]. repeat split; lia. }
-      split; [cbn [map zsum]; lia|]. split; [cbn [length]; lia|].
-      intros Hf. inversion Hf as [|? ? Hfv Hfr]; subst. exfalso. apply E. rewrite Ht. apply Hend. assumption.
+      assert (Hwf' : wf_entry v') by (unfold wf_entry; lia).
+      rewrite !(out_d_cons _ v'), Hi.
+      destruct (is0 v) eqn:D; cbn [Bool.eqb].
+      * splits; try lia; auto.
+        -- cbn [length]. lia.
+        -- intros Hf. inversion Hf; subst. constructor; auto. lia.
+        -- intros Hf. inversion Hf as [|? ? Hfv Hfr]; subst. exfalso. apply E. rewrite Ht. apply Hend. assumption.
+      * splits; try lia; auto.
+        -- cbn [length]. lia.
+        -- intros Hf. inversion Hf; subst. constructor; auto. lia.
+        -- intros Hf. inversion Hf as [|? ? Hfv Hfr]; subst. exfalso. apply E. rewrite Ht. apply Hend. assumption.
+Qed.
+
+(* a claim pays, per denom, exactly the newly vested amounts of the entries of that denom - for ANY list *)
+Lemma claim_loop_pays h vs : forall c0 c1 vs',
+  claim_loop true h vs = Ok (c0, c1, vs') ->
+  c0 = zsum (map (newly h) (filter is0 vs)) /\ c1 = zsum (map (newly h) (filter non0 vs)).
+Proof.
+  induction vs as [|v r IH]; intros c0 c1 vs' H; cbn [claim_loop] in H.
+  - inversion H; subst. split; reflexivity.
+  - destruct (claim_entry_newly h v) as [v' Hce]. rewrite Hce in H. cbn [bind] in H.
+    destruct (claim_loop true h r) as [[[d0 d1] r']| |] eqn:L; cbn [bind] in H; try discriminate.
+    destruct (IH _ _ _ eq_refl) as [-> ->].
+    cbn [filter]. unfold non0 at 1. destruct (is0 v); cbn [negb map zsum]; inversion H; subst; split; reflexivity.
 Qed.
 
 (* ---------- the cancel loop ---------- *)
 
 Definition weak_entry (v : ventry) : Prop := 0 <= v_claimed v <= v_total v /\ 0 <= v_num v.
 
+(* what the cancel loop may do to the entry at one position: entries of another denom are not touched at all *)
+Definition cancel_rel (v v' : ventry) : Prop :=
+  v_claimed v' = v_claimed v /\ v_start v' = v_start v /\ v_num v' = v_num v /\ v_den v' = v_den v /\
+  v_total v' <= v_total v /\ (is0 v = false -> v' = v).
+
 Lemma cancel_loop_spec l : forall rem,
   0 <= rem -> Forall wf_entry l ->
   let '(rem', l') := cancel_loop rem l in
-  0 <= rem' <= rem /\ Forall weak_entry l' /\ out_of l = out_of l' + (rem - rem') /\
-  length l' = length l /\
-  Forall2 (fun v v' => v_claimed v' = v_claimed v /\ v_start v' = v_start v /\ v_num v' = v_num v
-                       /\ v_total v' <= v_total v) l l'.
+  0 <= rem' <= rem /\ Forall weak_entry l' /\
+  out_d true l = out_d true l' + (rem - rem') /\ out_d false l = out_d false l' /\
+  length l' = length l /\ Forall2 cancel_rel l l'.
 Proof.
   induction l as [|v r IH]; intros rem Hrem Hall; cbn [cancel_loop].
-  - repeat split; auto; lia.
+  - splits; auto; lia.
   - inversion Hall as [|? ? Hv Hr]; subst. destruct Hv as [[Hc Ht] Hn].
-    destruct ((v_num v =? 0) || (v_total v =? 0)) eqn:Skip.
+    destruct (negb (is0 v) || (v_num v =? 0) || (v_total v =? 0)) eqn:Skip.
     + specialize (IH rem Hrem Hr). destruct (cancel_loop rem r) as [rem' r'].
-      destruct IH as (A & B & C & D & F). unfold out_of in *. cbn [map zsum length].
-      repeat split; auto; try lia.
+      destruct IH as (A & B & C & C1 & D & F). rewrite !(out_d_cons _ v). cbn [length].
+      splits; auto; try lia.
       * constructor; auto. unfold weak_entry; lia.
-      * constructor; auto. repeat split; lia.
-    + set (c := Z.min rem (v_total v - v_claimed v)).
+      * constructor; auto. unfold cancel_rel. splits; auto; lia.
+    + apply orb_false_iff in Skip. destruct Skip as [Skip _]. apply orb_false_iff in Skip. destruct Skip as [Hd _].
+      apply negb_false_iff in Hd.
+      set (c := Z.min rem (v_total v - v_claimed v)).
       assert (0 <= c <= rem) by (unfold c; lia).
       assert (c <= v_total v - v_claimed v) by (unfold c; lia).
       specialize (IH (rem - c) ltac:(lia) Hr). destruct (cancel_loop (rem - c) r) as [rem' r'].
-      destruct IH as (A & B & C & D & F). unfold out_of in *. cbn [map zsum length].
-      repeat split; auto; try lia.
+      destruct IH as (A & B & C & C1 & D & F).
+      set (v1 := mkV (v_total v - c) (v_claimed v) (v_start v) (v_num v) (v_den v)).
+      assert (Hi : is0 v1 = true) by exact Hd.
+      rewrite !(out_d_cons _ v), !(out_d_cons _ v1), Hi, Hd. cbn [Bool.eqb].
+      subst v1. cbn [v_total v_claimed length].
+      splits; auto; try lia.
       * constructor; auto. unfold weak_entry; cbn; lia.
-      * cbn. lia.
-      * constructor; auto. cbn. repeat split; lia.
+      * constructor; auto. unfold cancel_rel. cbn [v_total v_claimed v_start v_num v_den]. splits; auto; try lia. intros Hx. change (is0 v = false) in Hx. congruence.
 Qed.
 
-Lemma out_of_app a b : out_of (a ++ b) = out_of a + out_of b.
-Proof. unfold out_of. induction a; cbn [app map zsum]; lia. Qed.
-
-Lemma out_of_single v : out_of [v] = v_total v - v_claimed v.
-Proof. unfold out_of. cbn. lia. Qed.
-
-Lemma out_of_rev a : out_of (rev a) = out_of a.
-Proof. induction a; cbn [rev]; [reflexivity|]. rewrite out_of_app, IHa. unfold out_of. cbn. lia. Qed.
-
-Lemma filter_weak vs :
+Lemma filter_weak b vs :
   Forall weak_entry vs ->
-  let vs' := filter (fun v => negb (v_total v <=? v_claimed v)) vs in
-  Forall wf_entry vs' /\ out_of vs' = out_of vs.
+  Forall wf_entry (filter cancel_keep vs) /\ out_d b (filter cancel_keep vs) = out_d b vs.
 Proof.
   induction vs as [|v r IH]; intros Hall; cbn [filter].
   - split; [constructor|reflexivity].
   - inversion Hall as [|? ? Hv Hr]; subst. destruct (IH Hr) as [A B]. destruct Hv as [[Hc Ht] Hn].
+    assert (K : cancel_keep v = negb (v_total v <=? v_claimed v)) by reflexivity. rewrite K.
     destruct (v_total v <=? v_claimed v) eqn:E; cbn [negb].
-    + apply Z.leb_le in E. split; auto. unfold out_of in *. cbn [map zsum]. cbn in B. lia.
+    + apply Z.leb_le in E. split; auto. rewrite out_d_cons, B. destruct (Bool.eqb (is0 v) b); lia.
     + apply Z.leb_gt in E. split.
       * constructor; auto. unfold wf_entry; lia.
-      * unfold out_of in *. cbn [map zsum]. cbn in B. lia.
+      * rewrite !out_d_cons, B. reflexivity.
 Qed.
 
 Lemma Forall_rev' {A} (P : A -> Prop) l : Forall P l -> Forall P (rev l).
 Proof. intros H. apply Forall_forall. intros x Hx. apply in_rev in Hx. rewrite Forall_forall in H. auto. Qed.
 
+Lemma Forall2_rev' {A B} (R : A -> B -> Prop) l l' : Forall2 R l l' -> Forall2 R (rev l) (rev l').
+Proof. induction 1; cbn [rev]; [constructor|]. apply Forall2_app; auto. Qed.
+
+Lemma Forall2_impl' {A B} (R R' : A -> B -> Prop) l l' :
+  (forall a b, R a b -> R' a b) -> Forall2 R l l' -> Forall2 R' l l'.
+Proof. intros H. induction 1; constructor; auto. Qed.
+
+(* entries of the other denoms survive the final drop-filter of a cancel, in their order *)
+Lemma other_denoms_kept l l' :
+  Forall wf_entry l -> Forall2 cancel_rel l l' ->
+  filter non0 (filter cancel_keep l') = filter non0 l /\
+  Forall (fun v => is0 v = false -> cancel_keep v = true) l'.
+Proof.
+  intros Hwf H. induction H as [|v v' l l' Hr _ IH]; [split; [reflexivity|constructor]|].
+  inversion Hwf as [|? ? Hv Hl]; subst. destruct (IH Hl) as [IH1 IH2].
+  destruct Hr as (_ & _ & _ & Hd & _ & Hsame).
+  assert (Hi : is0 v' = is0 v) by (unfold is0; rewrite Hd; reflexivity).
+  destruct (is0 v) eqn:D.
+  - assert (N : non0 v = false) by (unfold non0; rewrite D; reflexivity).
+    assert (N' : non0 v' = false) by (unfold non0; rewrite Hi; reflexivity).
+    split.
+    + cbn [filter]. rewrite N.
+      destruct (cancel_keep v'); [cbn [filter]; rewrite N'|]; exact IH1.
+    + constructor; auto. intros C. congruence.
+  - pose proof (Hsame eq_refl) as ->.
+    assert (N : non0 v = true) by (unfold non0; rewrite D; reflexivity).
+    assert (K : cancel_keep v = true).
+    { unfold cancel_keep. destruct Hv as [[? ?] ?]. destruct (v_total v <=? v_claimed v) eqn:E; [apply Z.leb_le in E; lia|reflexivity]. }
+    split.
+    + cbn [filter]. rewrite K. cbn [filter]. rewrite N. f_equal. exact IH1.
+    + constructor; auto.
+Qed.
+
 (* ---------- account invariant ---------- *)
 
 Definition wf_acct (a : acct) : Prop :=
-  Forall wf_entry (a_vs a) /\ 0 <= a_eden a /\
+  Forall wf_entry (a_vs a) /\ 0 <= a_eden a /\ 0 <= a_usdc a /\
   g_in a = g_released a + g_returned a + outstanding a /\
-  0 <= g_released a /\ 0 <= g_returned a.
+  g_in1 a = g_released1 a + outstanding1 a /\
+  a_usdc a + outstanding1 a = g_usdc0 a /\
+  0 <= g_released a /\ 0 <= g_returned a /\ 0 <= g_released1 a.
 
 Definition live_acct (a : acct) : Prop := Forall (fun v => 0 < v_num v) (a_vs a).
-
-Lemma outstanding_out a : outstanding a = out_of (a_vs a).
-Proof. reflexivity. Qed.
-
-Lemma live_entries a : wf_acct a -> live_acct a -> Forall live_entry (a_vs a).
-Proof.
-  intros (H & _) L. unfold live_acct in L. apply Forall_forall. intros v Hv.
-  rewrite Forall_forall in H, L. split; auto.
-Qed.
-
-Lemma live_wf vs : Forall live_entry vs -> Forall wf_entry vs.
-Proof. apply Forall_impl. intros v [H _]. exact H. Qed.
-
-Lemma live_num vs : Forall live_entry vs -> Forall (fun v => 0 < v_num v) vs.
-Proof. apply Forall_impl. intros v [_ H]. exact H. Qed.
 
 Lemma vest_inv h amt p a a' :
   wf_acct a -> 0 <= p_num p -> vest h amt p a = Ok a' ->
   wf_acct a' /\ (0 < p_num p -> live_acct a -> live_acct a') /\
-  a_eden a' = a_eden a - amt /\ a_elys a' = a_elys a /\ g_in a' = g_in a + amt.
+  a_eden a' = a_eden a - amt /\ a_elys a' = a_elys a /\ a_usdc a' = a_usdc a /\ g_in a' = g_in a + amt /\
+  outstanding a' = outstanding a + amt /\ outstanding1 a' = outstanding1 a /\ g_usdc0 a' = g_usdc0 a.
 Proof.
-  intros (Hvs & He & Hcons & Hr & Hret) Hp H. unfold vest, guard in H.
+  intros (Hvs & He & Hu & Hcons & Hcons1 & Hw & Hr & Hret & Hr1) Hp H. unfold vest, guard in H.
   destruct (0 <? amt) eqn:A; [|discriminate]. apply Z.ltb_lt in A.
   destruct (negb _); [|discriminate].
   destruct (amt <=? a_eden a) eqn:B; [|discriminate]. apply Z.leb_le in B.
   inversion H; subst; clear H.
-  unfold wf_acct, live_acct. rewrite !outstanding_out in *.
-  cbn [a_vs a_eden a_elys g_in g_released g_returned].
-  rewrite out_of_app, out_of_single. cbn [v_total v_claimed].
-  split; [|split; [|lia]].
-  - split; [|lia].
-    apply Forall_app. split; auto. constructor; [|constructor]. unfold wf_entry; cbn; lia.
+  unfold wf_acct, live_acct, outstanding, outstanding1 in *.
+  cbn [a_vs a_eden a_elys a_usdc g_in g_released g_returned g_in1 g_released1 g_usdc0].
+  rewrite !out_d_app, !out_d_single. unfold is0. cbn [v_den v_total v_claimed Z.eqb Bool.eqb].
+  splits; try lia.
+  - apply Forall_app. split; auto. constructor; [|constructor]. unfold wf_entry; cbn; lia.
   - intros Hn L. apply Forall_app. split; auto.
 Qed.
 
+Lemma vest_liquid_inv h amt li a a' :
+  wf_acct a -> (match li with Some x => 0 <= l_num x | None => True end) -> vest_liquid h amt li a = Ok a' ->
+  wf_acct a' /\ 0 < amt /\
+  a_eden a' = a_eden a /\ a_elys a' = a_elys a /\ a_usdc a' = a_usdc a - amt /\ g_in1 a' = g_in1 a + amt /\
+  outstanding a' = outstanding a /\ outstanding1 a' = outstanding1 a + amt /\ g_usdc0 a' = g_usdc0 a /\
+  exists x, li = Some x /\ a_vs a' = a_vs a ++ [mkV amt 0 h (l_num x) 1].
+Proof.
+  intros (Hvs & He & Hu & Hcons & Hcons1 & Hw & Hr & Hret & Hr1) Hp H. unfold vest_liquid, guard in H.
+  destruct (0 <? amt) eqn:A; [|discriminate]. apply Z.ltb_lt in A.
+  destruct (amt <=? a_usdc a) eqn:B; [|discriminate]. apply Z.leb_le in B.
+  destruct li as [x|]; [|discriminate].
+  destruct (negb _); [|discriminate].
+  inversion H; subst; clear H.
+  unfold wf_acct, outstanding, outstanding1 in *.
+  cbn [a_vs a_eden a_elys a_usdc g_in g_released g_returned g_in1 g_released1 g_usdc0].
+  rewrite !out_d_app, !out_d_single. unfold is0. cbn [v_den v_total v_claimed Z.eqb Bool.eqb].
+  splits; try lia.
+  - apply Forall_app. split; auto. constructor; [|constructor]. unfold wf_entry; cbn; lia.
+  - exists x. split; reflexivity.
+Qed.
+
+(* claim: no assumption on the schedule lengths (zero-block entries included) *)
 Lemma claim_inv h a :
-  wf_acct a -> live_acct a ->
-  exists a', claim h a = Ok a' /\ wf_acct a' /\ live_acct a' /\
+  wf_acct a ->
+  exists a', claim h a = Ok a' /\ wf_acct a' /\ (live_acct a -> live_acct a') /\
     a_eden a' = a_eden a /\
     0 <= a_elys a' - a_elys a /\
     a_elys a' - a_elys a = g_released a' - g_released a /\
     a_elys a' - a_elys a = outstanding a - outstanding a' /\
+    0 <= a_usdc a' - a_usdc a /\
+    a_usdc a' - a_usdc a = g_released1 a' - g_released1 a /\
+    a_usdc a' - a_usdc a = outstanding1 a - outstanding1 a' /\
+    g_usdc0 a' = g_usdc0 a /\
     (Forall (fun v => v_num v <= h - v_start v) (a_vs a) ->
-       a_vs a' = [] /\ a_elys a' = a_elys a + outstanding a).
+       a_vs a' = [] /\ a_elys a' = a_elys a + outstanding a /\ a_usdc a' = a_usdc a + outstanding1 a).
 Proof.
-  intros Hwf L. pose proof (live_entries a Hwf L) as Hl.
-  destruct Hwf as (Hvs & He & Hcons & Hr & Hret).
-  destruct (claim_loop_spec h (a_vs a) Hl) as (c & vs' & Hc & Hc0 & Hl' & Hout & Hlen & Hend).
+  intros (Hvs & He & Hu & Hcons & Hcons1 & Hw & Hr & Hret & Hr1).
+  destruct (claim_loop_spec h (a_vs a) Hvs) as (c0 & c1 & vs' & Hc & Hc0 & Hc1 & Hwf' & Hout0 & Hout1 & Hlen & Hlive & Hend).
   unfold claim, claim_gen. rewrite Hc. cbn [bind].
-  eexists. split; [reflexivity|]. unfold wf_acct, live_acct. rewrite !outstanding_out in *.
-  cbn [a_vs a_eden a_elys g_in g_released g_returned].
-  split; [|split; [|split; [|split; [|split; [|split]]]]]; try lia.
-  - split; [apply live_wf; assumption|]. lia.
-  - apply live_num; assumption.
-  - intros Hf. apply Hend in Hf. destruct Hf as [-> ->]. split; [reflexivity|lia].
+  eexists. split; [reflexivity|]. unfold wf_acct, live_acct, outstanding, outstanding1 in *.
+  cbn [a_vs a_eden a_elys a_usdc g_in g_released g_returned g_in1 g_released1 g_usdc0].
+  splits; try lia; auto.
+  intros Hf. apply Hend in Hf. destruct Hf as (-> & -> & ->). splits; [reflexivity|lia|lia].
 Qed.
 
-Lemma cancel_inv amt a a' :
-  wf_acct a -> cancel amt a = Ok a' ->
+Lemma cancel_inv d amt a a' :
+  wf_acct a -> cancel d amt a = Ok a' ->
   wf_acct a' /\ (live_acct a -> live_acct a') /\
-  a_eden a' = a_eden a + amt /\ a_elys a' = a_elys a /\
-  outstanding a' = outstanding a - amt /\ g_returned a' = g_returned a + amt /\
-  g_released a' = g_released a.
+  a_eden a' = a_eden a + amt /\ a_elys a' = a_elys a /\ a_usdc a' = a_usdc a /\
+  outstanding a' = outstanding a - amt /\ outstanding1 a' = outstanding1 a /\
+  g_returned a' = g_returned a + amt /\
+  g_released a' = g_released a /\ g_usdc0 a' = g_usdc0 a /\ d = 0 /\ 0 < amt.
 Proof.
-  intros (Hvs & He & Hcons & Hr & Hret) H. unfold cancel, guard in H.
+  intros (Hvs & He & Hu & Hcons & Hcons1 & Hw & Hr & Hret & Hr1) H. unfold cancel, guard in H.
+  destruct (d =? 0) eqn:D0; [|discriminate]. apply Z.eqb_eq in D0.
   destruct (0 <? amt) eqn:A; [|discriminate]. apply Z.ltb_lt in A.
   pose proof (cancel_loop_spec (rev (a_vs a)) amt ltac:(lia) (Forall_rev' _ _ Hvs)) as S.
   destruct (cancel_loop amt (rev (a_vs a))) as [rem rvs].
-  destruct S as (Hrem & Hweak & Hout & Hlen & Hf2).
+  destruct S as (Hrem & Hweak & Hout & Hout1 & Hlen & Hf2).
   destruct (rem =? 0) eqn:R; [|discriminate]. apply Z.eqb_eq in R. subst rem.
   inversion H; subst; clear H.
-  destruct (filter_weak (rev rvs) (Forall_rev' _ _ Hweak)) as [Fw Fo].
-  rewrite out_of_rev in Hout. unfold wf_acct, live_acct, outstanding in *. cbn.
-  fold (out_of (a_vs a)) in *.
-  match goal with |- context [filter ?f ?l] => fold (out_of (filter f l)) end.
-  rewrite Fo, out_of_rev.
-  repeat split; try lia; auto.
+  destruct (filter_weak true (rev rvs) (Forall_rev' _ _ Hweak)) as [Fw Fo].
+  destruct (filter_weak false (rev rvs) (Forall_rev' _ _ Hweak)) as [_ Fo1].
+  rewrite out_d_rev in Hout, Hout1. unfold wf_acct, live_acct, outstanding, outstanding1 in *.
+  cbn [a_vs a_eden a_elys a_usdc g_in g_released g_returned g_in1 g_released1 g_usdc0].
+  rewrite Fo, Fo1, !out_d_rev.
+  splits; try lia; auto.
   intros L. apply Forall_forall. intros v Hv. apply filter_In in Hv. destruct Hv as [Hv _].
   apply in_rev in Hv.
   assert (Hn : Forall (fun v => 0 < v_num v) rvs).
@@ -291,19 +434,45 @@ Proof.
   rewrite Forall_forall in Hn. auto.
 Qed.
 
+(* a cancel leaves the entries of the other denoms alone: same value at the same position of the list before the
+   drop-filter, none of them dropped by the filter, so the sub-list of the other denoms is the same list *)
+Lemma cancel_other_denoms d amt a a' :
+  wf_acct a -> cancel d amt a = Ok a' ->
+  exists mid,
+    Forall2 (fun v v' => (is0 v = false -> v' = v) /\ is0 v' = is0 v) (a_vs a) mid /\
+    a_vs a' = filter cancel_keep mid /\
+    Forall (fun v => is0 v = false -> cancel_keep v = true) mid /\
+    filter non0 (a_vs a') = filter non0 (a_vs a) /\
+    a_usdc a' = a_usdc a /\ outstanding1 a' = outstanding1 a.
+Proof.
+  intros Hwf H. destruct (cancel_inv _ _ _ _ Hwf H) as (_ & _ & _ & _ & Hu & _ & Ho1 & _).
+  destruct Hwf as (Hvs & _). unfold cancel, guard in H.
+  destruct (d =? 0); [|discriminate]. destruct (0 <? amt) eqn:A; [|discriminate]. apply Z.ltb_lt in A.
+  pose proof (cancel_loop_spec (rev (a_vs a)) amt ltac:(lia) (Forall_rev' _ _ Hvs)) as S.
+  destruct (cancel_loop amt (rev (a_vs a))) as [rem rvs].
+  destruct S as (_ & _ & _ & _ & _ & Hf2).
+  destruct (rem =? 0); [|discriminate]. inversion H; subst; clear H.
+  apply Forall2_rev' in Hf2. rewrite rev_involutive in Hf2.
+  destruct (other_denoms_kept _ _ Hvs Hf2) as [K1 K2].
+  exists (rev rvs). cbn [a_vs a_usdc] in *. splits; auto.
+  eapply Forall2_impl'; [|exact Hf2]. intros v v' (_ & _ & _ & Hd & _ & Hs). split; [exact Hs|].
+  unfold is0. rewrite Hd. reflexivity.
+Qed.
+
 Lemma vest_now_inv amt p a a' :
   wf_acct a -> 0 < p_factor p -> vest_now amt p a = Ok a' ->
   wf_acct a' /\ a_vs a' = a_vs a /\
   a_eden a' = a_eden a - amt /\ a_elys a' = a_elys a + Z.quot amt (p_factor p) /\
-  0 <= Z.quot amt (p_factor p) <= amt.
+  0 <= Z.quot amt (p_factor p) <= amt /\ a_usdc a' = a_usdc a /\ g_usdc0 a' = g_usdc0 a.
 Proof.
-  intros (Hvs & He & Hcons & Hr & Hret) Hf H. unfold vest_now, guard in H.
+  intros (Hvs & He & Hu & Hcons & Hcons1 & Hw & Hr & Hret & Hr1) Hf H. unfold vest_now, guard in H.
   destruct (0 <? amt) eqn:A; [|discriminate]. apply Z.ltb_lt in A.
   destruct (p_now p); [|discriminate].
   destruct (amt <=? a_eden a) eqn:B; [|discriminate]. apply Z.leb_le in B.
   destruct (negb (p_factor p =? 0)); [|discriminate].
-  inversion H; subst; clear H. unfold wf_acct, outstanding in *. cbn.
-  repeat split; try lia; auto.
+  inversion H; subst; clear H. unfold wf_acct, outstanding, outstanding1 in *.
+  cbn [a_vs a_eden a_elys a_usdc g_in g_released g_returned g_in1 g_released1 g_usdc0].
+  splits; try lia; auto.
   - apply Z.quot_pos; lia.
   - rewrite Z.quot_div_nonneg by lia. apply Z.div_le_upper_bound; nia.
 Qed.
@@ -311,9 +480,15 @@ Qed.
 (* ---------- state invariant over all histories ---------- *)
 
 Definition wf_params (p : params) : Prop := 0 <= p_num p /\ 0 <= p_max p /\ 0 < p_factor p.
+Definition wf_linfo (l : option linfo) : Prop :=
+  match l with Some x => 0 <= l_num x /\ 0 <= l_max x | None => True end.
 
-Definition Inv (s : state) : Prop := wf_params (s_p s) /\ Forall wf_acct (s_accts s).
-(* governance never configured a zero-length schedule: then every entry is live *)
+(* the module's custody of the liquid denom is exactly what the liquid schedules of all accounts still hold *)
+Definition custody (s : state) : Z := zsum (map outstanding1 (s_accts s)).
+
+Definition Inv (s : state) : Prop :=
+  wf_params (s_p s) /\ wf_linfo (s_l s) /\ Forall wf_acct (s_accts s) /\ s_mod s = custody s.
+(* governance never configured a zero-length ELYS schedule and no entry has zero blocks *)
 Definition Live (s : state) : Prop := 0 < p_num (s_p s) /\ Forall live_acct (s_accts s).
 
 Lemma nth_Forall {A} (P : A -> Prop) l i d : Forall P l -> (i < length l)%nat -> P (nth i l d).
@@ -328,181 +503,240 @@ Qed.
 Lemma upd_nth_length {A} l i (x : A) : length (upd_nth i x l) = length l.
 Proof. revert i; induction l; intros [|i]; cbn; auto. Qed.
 
-Definition gov_ok (o : op) : Prop := match o with OGov n _ _ => 0 < n | _ => True end.
+Lemma nth_upd_nth {A} l i (x d : A) : (i < length l)%nat -> nth i (upd_nth i x l) d = x.
+Proof. revert i. induction l as [|y r IH]; intros [|i] Hi; cbn in *; try lia; auto. apply IH. lia. Qed.
 
-Lemma step_inv s o s' : Inv s -> step s o = Ok s' -> Inv s' /\ (gov_ok o -> Live s -> Live s').
+Lemma zsum_upd {A} (f : A -> Z) l i x d : (i < length l)%nat ->
+  zsum (map f (upd_nth i x l)) = zsum (map f l) - f (nth i l d) + f x.
 Proof.
-  intros [Hp Ha] H. destruct o as [i h amt|i h|i amt|i amt|n mx f|b]; cbn in H.
-  all: try (unfold on_acct in H;
-    destruct (Nat.ltb i (length (s_accts s))) eqn:Hi; [apply Nat.ltb_lt in Hi|discriminate];
-    pose proof (nth_Forall _ _ i dflt_acct Ha Hi) as Hwa; fold (get_acct s i) in Hwa).
-  - destruct (vest h amt (s_p s) (get_acct s i)) as [a'| |] eqn:V; cbn in H; try discriminate.
-    inversion H; subst; clear H. destruct Hp as (Hn & Hm & Hf).
-    destruct (vest_inv _ _ _ _ _ Hwa Hn V) as (W & Lv & _).
-    split; [split; [cbn; unfold wf_params; auto | cbn; apply upd_nth_Forall; auto]|].
-    intros _ [Ln La]. split; [exact Ln|]. cbn. apply upd_nth_Forall; auto.
-    apply Lv; auto. apply (nth_Forall _ _ i dflt_acct La Hi).
-  - destruct (claim_gen true h (get_acct s i)) as [a'| |] eqn:V; cbn in H; try discriminate.
-    inversion H; subst; clear H.
-    (* without liveness we still need wf preserved: go through the loop lemma only when live;
-       in general use the weaker direct argument below *)
-    split.
-    + split; [exact Hp|]. cbn. apply upd_nth_Forall; auto.
-      (* wf preservation of claim without assuming live entries *)
-      clear - Hwa V. unfold claim_gen in V.
-      destruct (claim_loop true h (a_vs (get_acct s i))) as [[c vs']| |] eqn:L; cbn in V; try discriminate.
-      inversion V; subst; clear V.
-      destruct Hwa as (Hvs & He & Hcons & Hr & Hret).
-      assert (G : forall vs c vs', Forall wf_entry vs -> claim_loop true h vs = Ok (c, vs') ->
-                  0 <= c /\ Forall wf_entry vs' /\ out_of vs = out_of vs' + c).
-      { clear. induction vs as [|v r IH]; intros c vs' Hall Hl; cbn in Hl.
-        - inversion Hl; subst. repeat split; auto; lia.
-        - inversion Hall as [|? ? Hv Hr]; subst.
-          destruct (claim_entry true h v) as [[c1 v1]| |] eqn:CE; cbn in Hl; try discriminate.
-          destruct (claim_loop true h r) as [[c2 r2]| |] eqn:CL; cbn in Hl; try discriminate.
-          inversion Hl; subst; clear Hl.
-          destruct (IH _ _ Hr eq_refl) as (A & B & C).
-          destruct (Z.eq_dec (v_num v) 0) as [Hz|Hnz].
-          { (* zero-block schedule: released in full, the entry is dropped *)
-            rewrite (claim_entry_zero h v Hv Hz) in CE. inversion CE; subst; clear CE.
-            unfold out_of in *. cbn [map zsum v_claimed v_total]. rewrite Z.eqb_refl.
-            destruct Hv as [[? ?] ?]. repeat split; auto; lia. }
-          assert (Hn : 0 < v_num v) by (destruct Hv as [_ ?]; lia).
-          destruct (claim_entry_spec h v (conj Hv Hn)) as (c & v' & Hce & Hc0 & Hcl & Hrange & Ht & Hs & Hnn & _).
-          rewrite Hce in CE. inversion CE; subst; clear CE.
-          unfold out_of in *. cbn [map zsum].
-          destruct (v_claimed v1 =? v_total v1) eqn:E.
-          + apply Z.eqb_eq in E. repeat split; auto; lia.
-          + apply Z.eqb_neq in E. repeat split; auto; try lia.
-            * constructor; auto. destruct Hv as [[? ?] ?]. unfold wf_entry. lia.
-            * cbn [map zsum]. lia. }
-      destruct (G _ _ _ Hvs L) as (A & B & C).
-      unfold wf_acct, outstanding in *. cbn. fold (out_of vs'). fold (out_of (a_vs (get_acct s i))) in Hcons.
-      repeat split; auto; lia.
-    + intros _ [Ln La]. split; [exact Ln|]. cbn. apply upd_nth_Forall; auto.
-      pose proof (nth_Forall _ _ i dflt_acct La Hi) as Hla. fold (get_acct s i) in Hla.
-      destruct (claim_inv h _ Hwa Hla) as (a'' & Hc & _ & Hl'' & _).
-      unfold claim in Hc. rewrite Hc in V. inversion V; subst. assumption.
-  - destruct (cancel amt (get_acct s i)) as [a'| |] eqn:V; cbn in H; try discriminate.
-    inversion H; subst; clear H.
-    destruct (cancel_inv _ _ _ Hwa V) as (W & Lv & _).
-    split; [split; [exact Hp | cbn; apply upd_nth_Forall; auto]|].
-    intros _ [Ln La]. split; [exact Ln|]. cbn. apply upd_nth_Forall; auto.
-    apply Lv. apply (nth_Forall _ _ i dflt_acct La Hi).
-  - destruct (vest_now amt (s_p s) (get_acct s i)) as [a'| |] eqn:V; cbn in H; try discriminate.
-    inversion H; subst; clear H. destruct Hp as (Hn & Hm & Hf).
-    destruct (vest_now_inv _ _ _ _ Hwa Hf V) as (W & Evs & _).
-    split; [split; [cbn; unfold wf_params; auto | cbn; apply upd_nth_Forall; auto]|].
-    intros _ [Ln La]. split; [exact Ln|]. cbn. apply upd_nth_Forall; auto.
-    unfold live_acct. rewrite Evs. apply (nth_Forall _ _ i dflt_acct La Hi).
-  - unfold gov_update, guard in H.
-    destruct ((0 <=? n) && (0 <=? mx) && (0 <? f)) eqn:G; cbn in H; [|discriminate].
+  revert i. induction l as [|y r IH]; intros [|i] Hi; cbn [length] in Hi; try lia; cbn [upd_nth map zsum nth].
+  - lia.
+  - rewrite (IH i) by lia. lia.
+Qed.
+
+Lemma map_upd_same {A B} (f : A -> B) l i x d : (i < length l)%nat -> f x = f (nth i l d) ->
+  map f (upd_nth i x l) = map f l.
+Proof.
+  revert i. induction l as [|y r IH]; intros [|i] Hi E; cbn [length] in Hi; try lia; cbn [upd_nth map nth] in *.
+  - rewrite E. reflexivity.
+  - f_equal. apply IH; [lia|exact E].
+Qed.
+
+Lemma zsum_ge_nth {A} (f : A -> Z) l i d : Forall (fun x => 0 <= f x) l -> (i < length l)%nat ->
+  f (nth i l d) <= zsum (map f l).
+Proof.
+  intros H. revert i. induction H as [|y r Hy Hr IH]; intros [|i] Hi; cbn [length] in Hi; try lia; cbn [map zsum nth].
+  - assert (0 <= zsum (map f r)) by (clear - Hr; induction Hr; cbn; lia). lia.
+  - specialize (IH i ltac:(lia)). lia.
+Qed.
+
+Lemma on_acct_ok s i f s' : on_acct s i f = Ok s' ->
+  (i < length (s_accts s))%nat /\ exists a', f (get_acct s i) = Ok a' /\ s' = set_acct s i a'.
+Proof.
+  unfold on_acct. destruct (Nat.ltb i (length (s_accts s))) eqn:Hi; [apply Nat.ltb_lt in Hi|discriminate].
+  destruct (f (get_acct s i)) as [a'| |]; cbn [bind]; try discriminate. intros H. inversion H. eauto.
+Qed.
+
+(* writing one account back (and the module balance accordingly) keeps the invariant *)
+Lemma inv_set s i a' m :
+  Inv s -> (i < length (s_accts s))%nat -> wf_acct a' ->
+  m = s_mod s - outstanding1 (get_acct s i) + outstanding1 a' ->
+  Inv (mkS (s_p s) (s_l s) m (upd_nth i a' (s_accts s))).
+Proof.
+  intros (Hp & Hl & Ha & Hm) Hi Hw ->. unfold Inv, custody in *. cbn [s_p s_l s_mod s_accts].
+  splits; auto.
+  - apply upd_nth_Forall; auto.
+  - rewrite (zsum_upd outstanding1 _ _ _ dflt_acct Hi). unfold get_acct. lia.
+Qed.
+
+(* the ghost "initial wallet" of every account, and the number of accounts, never change *)
+Definition same_ghost (s s' : state) : Prop := map g_usdc0 (s_accts s') = map g_usdc0 (s_accts s).
+
+Lemma same_ghost_set s i a' m p l :
+  (i < length (s_accts s))%nat -> g_usdc0 a' = g_usdc0 (get_acct s i) ->
+  same_ghost s (mkS p l m (upd_nth i a' (s_accts s))).
+Proof. intros Hi E. unfold same_ghost. cbn [s_accts]. apply (map_upd_same _ _ _ _ dflt_acct Hi E). Qed.
+
+Lemma step_inv s o s' : Inv s -> step s o = Ok s' -> Inv s' /\ same_ghost s s'.
+Proof.
+  intros HI H. pose proof HI as (Hp & Hl & Ha & Hm).
+  destruct o as [i h amt|i h|i d amt|i amt|n mx f|b|i h amt|n mx f]; cbn [step step_gen] in H.
+  - (* vest *)
+    apply on_acct_ok in H. destruct H as (Hi & a' & V & ->).
+    pose proof (nth_Forall _ _ i dflt_acct Ha Hi) as Hwa. fold (get_acct s i) in Hwa.
+    destruct Hp as (Hn & Hmx & Hf).
+    destruct (vest_inv _ _ _ _ _ Hwa Hn V) as (W & _ & _ & _ & _ & _ & _ & O1 & G).
+    split; [apply inv_set; auto; lia | apply same_ghost_set; auto].
+  - (* claim *)
+    destruct (on_acct s i (claim_gen true h)) as [s1| |] eqn:OA; cbn [bind] in H; try discriminate.
+    apply on_acct_ok in OA. destruct OA as (Hi & a' & V & ->).
+    pose proof (nth_Forall _ _ i dflt_acct Ha Hi) as Hwa. fold (get_acct s i) in Hwa.
+    destruct (claim_inv h _ Hwa) as (a'' & Hc & W & _ & _ & _ & _ & _ & _ & _ & O1 & G & _).
+    unfold claim in Hc. rewrite Hc in V. inversion V; subst a''; clear V.
+    unfold guard in H. destruct (_ <=? s_mod s); [|discriminate]. inversion H; subst; clear H.
+    assert (GS : get_acct (set_acct s i a') i = a') by (unfold get_acct, set_acct; cbn [s_accts]; apply nth_upd_nth; exact Hi).
+    rewrite GS. unfold set_mod, set_acct. cbn [s_p s_l s_mod s_accts].
+    split; [apply inv_set; auto; lia | apply same_ghost_set; auto].
+  - (* cancel *)
+    apply on_acct_ok in H. destruct H as (Hi & a' & V & ->).
+    pose proof (nth_Forall _ _ i dflt_acct Ha Hi) as Hwa. fold (get_acct s i) in Hwa.
+    destruct (cancel_inv _ _ _ _ Hwa V) as (W & _ & _ & _ & _ & _ & O1 & _ & _ & G & _).
+    split; [apply inv_set; auto; lia | apply same_ghost_set; auto].
+  - (* vest-now *)
+    apply on_acct_ok in H. destruct H as (Hi & a' & V & ->).
+    pose proof (nth_Forall _ _ i dflt_acct Ha Hi) as Hwa. fold (get_acct s i) in Hwa.
+    destruct Hp as (Hn & Hmx & Hf).
+    destruct (vest_now_inv _ _ _ _ Hwa Hf V) as (W & Evs & _ & _ & _ & _ & G).
+    split; [apply inv_set; auto; unfold outstanding1; rewrite Evs; lia | apply same_ghost_set; auto].
+  - (* governance: the ueden info *)
+    unfold gov_update, guard in H.
+    destruct ((0 <=? n) && (0 <=? mx) && (0 <? f)) eqn:G; cbn [bind] in H; [|discriminate].
     inversion H; subst; clear H.
     apply andb_prop in G. destruct G as [G Gf]. apply andb_prop in G. destruct G as [Gn Gm].
     apply Z.leb_le in Gn, Gm. apply Z.ltb_lt in Gf.
-    split; [split; [cbn; unfold wf_params; cbn; auto | exact Ha]|].
-    intros Hg [_ La]. split; [cbn; exact Hg | exact La].
-  - inversion H; subst; clear H.
-    split; [split; [destruct Hp as (?&?&?); cbn; unfold wf_params; cbn; auto | exact Ha]|].
-    intros _ [Ln La]. split; [cbn; exact Ln | exact La].
+    split; [|reflexivity]. unfold Inv, wf_params, custody. cbn. splits; auto.
+  - inversion H; subst; clear H. destruct Hp as (?&?&?).
+    split; [|reflexivity]. unfold Inv, wf_params, custody. cbn. splits; auto.
+  - (* vest-liquid *)
+    destruct (on_acct s i (vest_liquid h amt (s_l s))) as [s1| |] eqn:OA; cbn [bind] in H; try discriminate.
+    apply on_acct_ok in OA. destruct OA as (Hi & a' & V & ->). inversion H; subst; clear H.
+    pose proof (nth_Forall _ _ i dflt_acct Ha Hi) as Hwa. fold (get_acct s i) in Hwa.
+    assert (Hl' : match s_l s with Some x => 0 <= l_num x | None => True end).
+    { unfold wf_linfo in Hl. destruct (s_l s); [tauto|exact I]. }
+    destruct (vest_liquid_inv _ _ _ _ _ Hwa Hl' V) as (W & _ & _ & _ & _ & _ & _ & O1 & G & _).
+    unfold set_mod, set_acct. cbn [s_p s_l s_mod s_accts].
+    split; [apply inv_set; auto; lia | apply same_ghost_set; auto].
+  - (* governance: the liquid info *)
+    unfold gov_update_l, guard in H.
+    destruct ((0 <=? n) && (0 <=? mx) && (0 <? f)) eqn:G; cbn [bind] in H; [|discriminate].
+    inversion H; subst; clear H.
+    apply andb_prop in G. destruct G as [G Gf]. apply andb_prop in G. destruct G as [Gn Gm].
+    apply Z.leb_le in Gn, Gm.
+    split; [|reflexivity]. unfold Inv, wf_linfo, custody. cbn. splits; auto.
 Qed.
 
-Lemma exec_inv s o : Inv s -> Inv (exec s o) /\ (gov_ok o -> Live s -> Live (exec s o)).
+Lemma exec_inv s o : Inv s -> Inv (exec s o) /\ same_ghost s (exec s o).
 Proof.
-  intros H. unfold exec, run_tx. destruct (step s o) as [s'| |] eqn:E; auto.
+  intros H. unfold exec, run_tx. destruct (step s o) as [s'| |] eqn:E; try (split; [assumption|reflexivity]).
   apply (step_inv _ _ _ H E).
 Qed.
 
-Theorem run_inv ops : forall s, Inv s -> Inv (run s ops).
+Theorem run_inv ops : forall s, Inv s -> Inv (run s ops) /\ same_ghost s (run s ops).
 Proof.
-  induction ops as [|o r IH]; intros s H; cbn; [exact H|].
-  apply IH. apply exec_inv; assumption.
-Qed.
-
-Theorem run_live ops : forall s, Inv s -> Live s -> Forall gov_ok ops -> Live (run s ops).
-Proof.
-  induction ops as [|o r IH]; intros s H L G; cbn; [exact L|].
-  inversion G; subst. apply IH; auto.
-  - apply exec_inv; assumption.
-  - apply exec_inv; assumption.
+  induction ops as [|o r IH]; intros s H; cbn [run fold_left]; [split; [exact H|reflexivity]|].
+  destruct (exec_inv s o H) as [H1 G1]. destruct (IH _ H1) as [H2 G2]. split; [exact H2|].
+  unfold same_ghost in *. unfold run in G2. congruence.
 Qed.
 
 (* ---------- the property-level statements ---------- *)
 
-(* initial states used by the harness: every account has some claimable Eden, no vesting *)
+(* initial states used by the harness: every account has some claimable Eden and wallet, no vesting *)
+Definition init_ok (x : Z * Z * Z) : Prop := let '(e, _, u) := x in 0 <= e /\ 0 <= u.
 
-Lemma init_inv p l : wf_params p -> Forall (fun '(e, _) => 0 <= e) l -> Inv (init_state p l).
+Lemma init_inv p l : wf_params p -> Forall init_ok l -> Inv (init_state p l).
 Proof.
-  intros Hp Hl. split; [exact Hp|]. cbn. induction Hl as [|[e y] r He _ IH]; cbn; constructor; auto.
-  unfold wf_acct, init_acct, outstanding; cbn. repeat split; auto; lia.
+  intros Hp Hl. unfold Inv, custody. cbn [init_state s_p s_l s_mod s_accts wf_linfo]. splits; auto.
+  - induction Hl as [|[[e y] u] r [He Hu] _ IH]; cbn [map]; constructor; auto.
+    unfold wf_acct, init_acct, outstanding, outstanding1; cbn. splits; auto; lia.
+  - clear. induction l as [|[[e y] u] r IH]; cbn [map zsum]; [reflexivity|]. rewrite <- IH. reflexivity.
 Qed.
 
-Lemma init_live p l : 0 < p_num p -> Live (init_state p l).
-Proof.
-  intros Hp. split; [exact Hp|]. cbn. induction l as [|[e y] r IH]; cbn; constructor; auto.
-  constructor.
-Qed.
+Lemma init_ghost p l : map g_usdc0 (s_accts (init_state p l)) = map (fun '(_, _, u) => u) l.
+Proof. cbn [init_state s_accts]. induction l as [|[[e y] u] r IH]; cbn [map]; [reflexivity|]. f_equal. exact IH. Qed.
 
-(* conservation: Eden put into vesting = ELYS released + Eden returned + still outstanding,
-   for every account after every history *)
+(* conservation per denom, for every account after every history:
+   Eden put into vesting = ELYS released + Eden returned + still outstanding (ELYS schedules);
+   liquid coins put into vesting = released + still outstanding (liquid schedules);
+   wallet + still outstanding = the initial wallet; the module holds exactly what all liquid schedules still owe *)
 Theorem conservation p l ops i :
-  wf_params p -> Forall (fun '(e, _) => 0 <= e) l ->
+  wf_params p -> Forall init_ok l ->
   let s := run (init_state p l) ops in
   (i < length (s_accts s))%nat ->
   let a := get_acct s i in
   g_in a = g_released a + g_returned a + outstanding a /\
-  Forall (fun v => 0 <= v_claimed v < v_total v) (a_vs a).
+  g_in1 a = g_released1 a + outstanding1 a /\
+  a_usdc a + outstanding1 a = nth i (map (fun '(_, _, u) => u) l) 0 /\ 0 <= a_usdc a /\
+  Forall (fun v => 0 <= v_claimed v < v_total v) (a_vs a) /\
+  s_mod s = zsum (map outstanding1 (s_accts s)) /\
+  length (s_accts s) = length l.
 Proof.
   intros Hp Hl s Hi a.
-  destruct (run_inv ops _ (init_inv p l Hp Hl)) as [_ Ha].
-  pose proof (nth_Forall _ _ i dflt_acct Ha Hi) as (Hvs & _ & Hc & _). fold s in Hvs, Hc.
-  split; [exact Hc|]. eapply Forall_impl; [|exact Hvs]. intros v [H _]. exact H.
+  destruct (run_inv ops _ (init_inv p l Hp Hl)) as [(_ & _ & Ha & Hm) G]. fold s in Ha, Hm, G.
+  pose proof (nth_Forall _ _ i dflt_acct Ha Hi) as (Hvs & _ & Hu & Hc & Hc1 & Hw & _). fold (get_acct s i) in Hvs, Hu, Hc, Hc1, Hw.
+  unfold same_ghost in G. rewrite init_ghost in G.
+  splits; auto.
+  - fold a in Hw. rewrite Hw. rewrite <- G. unfold a, get_acct.
+    change 0 with (g_usdc0 dflt_acct). rewrite map_nth. reflexivity.
+  - eapply Forall_impl; [|exact Hvs]. intros v [H _]. exact H.
+  - rewrite <- (map_length g_usdc0), G, map_length. reflexivity.
 Qed.
 
-(* claiming always succeeds in every reachable state (as long as governance never configured a
-   zero-length schedule), releases a non-negative amount and keeps the books *)
+(* claiming always succeeds in every reachable state, whatever governance configured (zero-block schedules
+   included): the module always holds the liquid coins the claim pays; each wallet receives exactly the drop of
+   what is outstanding in the schedules of ITS denom *)
 Theorem claim_succeeds p l ops i h :
-  wf_params p -> 0 < p_num p -> Forall (fun '(e, _) => 0 <= e) l -> Forall gov_ok ops ->
+  wf_params p -> Forall init_ok l ->
   let s := run (init_state p l) ops in
   (i < length (s_accts s))%nat ->
   exists s', step s (OClaim i h) = Ok s' /\
     0 <= a_elys (get_acct s' i) - a_elys (get_acct s i) /\
-    a_elys (get_acct s' i) - a_elys (get_acct s i) = outstanding (get_acct s i) - outstanding (get_acct s' i).
+    a_elys (get_acct s' i) - a_elys (get_acct s i) = outstanding (get_acct s i) - outstanding (get_acct s' i) /\
+    0 <= a_usdc (get_acct s' i) - a_usdc (get_acct s i) /\
+    a_usdc (get_acct s' i) - a_usdc (get_acct s i) = outstanding1 (get_acct s i) - outstanding1 (get_acct s' i) /\
+    s_mod s' = s_mod s - (a_usdc (get_acct s' i) - a_usdc (get_acct s i)).
 Proof.
-  intros Hp Hn Hl Hg s Hi.
-  pose proof (run_inv ops _ (init_inv p l Hp Hl)) as [Hp' Ha].
-  pose proof (run_live ops _ (init_inv p l Hp Hl) (init_live p l Hn) Hg) as [_ La].
-  fold s in Ha, La.
-  pose proof (nth_Forall _ _ i dflt_acct Ha Hi) as Hwa.
-  pose proof (nth_Forall _ _ i dflt_acct La Hi) as Hla.
-  destruct (claim_inv h _ Hwa Hla) as (a' & Hc & _ & _ & _ & Hpos & _ & Hout & _).
-  cbn [step step_gen]. unfold on_acct. apply Nat.ltb_lt in Hi. rewrite Hi.
-  unfold claim in Hc. change (get_acct s i) with (nth i (s_accts s) dflt_acct). rewrite Hc. cbn [bind].
+  intros Hp Hl s Hi.
+  destruct (run_inv ops _ (init_inv p l Hp Hl)) as [(_ & _ & Ha & Hm) _]. fold s in Ha, Hm.
+  pose proof (nth_Forall _ _ i dflt_acct Ha Hi) as Hwa. fold (get_acct s i) in Hwa.
+  destruct (claim_inv h _ Hwa) as (a' & Hc & W & _ & _ & Hpos & _ & Hout & Hpos1 & _ & Hout1 & _).
+  cbn [step step_gen]. unfold on_acct. pose proof Hi as Hi'. apply Nat.ltb_lt in Hi'. rewrite Hi'.
+  unfold claim in Hc. rewrite Hc. cbn [bind].
+  assert (G : get_acct (set_acct s i a') i = a') by (unfold get_acct, set_acct; cbn [s_accts]; apply nth_upd_nth; exact Hi).
+  rewrite G.
+  (* the module holds at least what this account's liquid schedules still owe *)
+  assert (Hge : outstanding1 (get_acct s i) <= s_mod s).
+  { rewrite Hm. unfold custody, get_acct. apply zsum_ge_nth; [|exact Hi].
+    eapply Forall_impl; [|exact Ha]. intros x (Hx & _). apply out_d_nonneg. exact Hx. }
+  assert (0 <= outstanding1 a') by (destruct W as (Hx & _); apply out_d_nonneg; exact Hx).
+  unfold guard. destruct (a_usdc a' - a_usdc (get_acct s i) <=? s_mod s) eqn:E; [|apply Z.leb_gt in E; lia].
   eexists. split; [reflexivity|].
-  assert (G : get_acct (set_acct s i a') i = a').
-  { unfold get_acct, set_acct. cbn. apply Nat.ltb_lt in Hi. clear - Hi.
-    revert i Hi. induction (s_accts s) as [|x r IH]; intros [|i] Hi; cbn in *; try lia; auto.
-    apply IH. lia. }
-  rewrite G. split; assumption.
+  assert (G' : get_acct (set_mod (set_acct s i a') (s_mod s - (a_usdc a' - a_usdc (get_acct s i)))) i = a') by exact G.
+  rewrite G'. cbn [set_mod s_mod]. splits; auto.
 Qed.
 
-(* once every schedule of the account has elapsed, one claim releases everything outstanding *)
+(* once every schedule of the account has elapsed, one claim releases everything outstanding, each denom to its wallet *)
 Theorem complete_at_end a h :
-  wf_acct a -> live_acct a -> Forall (fun v => v_num v <= h - v_start v) (a_vs a) ->
-  exists a', claim h a = Ok a' /\ a_vs a' = [] /\ a_elys a' = a_elys a + outstanding a.
+  wf_acct a -> Forall (fun v => v_num v <= h - v_start v) (a_vs a) ->
+  exists a', claim h a = Ok a' /\ a_vs a' = [] /\
+    a_elys a' = a_elys a + outstanding a /\ a_usdc a' = a_usdc a + outstanding1 a.
 Proof.
-  intros W L F. destruct (claim_inv h a W L) as (a' & Hc & _ & _ & _ & _ & _ & _ & Hend).
+  intros W F. destruct (claim_inv h a W) as (a' & Hc & _ & _ & _ & _ & _ & _ & _ & _ & _ & _ & Hend).
   exists a'. split; auto.
 Qed.
 
-(* the pre-fix code: claim - cancel - claim panics (the defect repaired by the fix: commit) *)
+(* a claim pays each denom its own: ELYS wallet += newly vested of the ELYS entries, liquid wallet += newly
+   vested of the liquid entries; nothing of one denom is ever paid in the other. For ANY account state. *)
+Theorem claim_pays_each_denom h a a' :
+  claim h a = Ok a' ->
+  a_elys a' - a_elys a = zsum (map (newly h) (filter is0 (a_vs a))) /\
+  a_usdc a' - a_usdc a = zsum (map (newly h) (filter non0 (a_vs a))) /\
+  a_eden a' = a_eden a.
+Proof.
+  unfold claim, claim_gen. intros H.
+  destruct (claim_loop true h (a_vs a)) as [[[c0 c1] vs']| |] eqn:L; cbn [bind] in H; try discriminate.
+  destruct (claim_loop_pays _ _ _ _ _ L) as [-> ->]. inversion H; subst; clear H.
+  cbn [a_elys a_usdc a_eden]. splits; lia.
+Qed.
+
+(* the pre-fix code: claim - cancel - claim panics (the defect repaired by the fix: commit); a liquid schedule
+   of another denom sits in front of the ELYS schedule *)
 Definition refute_ops : list op :=
-  [OVest 0 10 900; OClaim 0 60; OCancel 0 400; OClaim 0 61].
-Definition refute_init : state := init_state (mkP 100 10 90 false) [(1000, 0)].
+  [OGovL 50 10 1; OVestLiquid 0 9 300; OVest 0 10 900; OClaim 0 60; OCancel 0 0 400; OClaim 0 61].
+Definition refute_init : state := init_state (mkP 100 10 90 false) [(1000, 0, 500)].
 
 Lemma prefix_refuted :
-  let s := fold_left exec_prefix (firstn 3 refute_ops) refute_init in
+  let s := fold_left exec_prefix (firstn 5 refute_ops) refute_init in
   Inv s /\ Live s /\ step_prefix s (OClaim 0 61) = Panic P_negcoin.
 Proof.
-  cbn. repeat split; try lia; repeat constructor; cbn; try lia.
+  vm_compute. splits; try lia; repeat constructor; cbn; try lia; try discriminate.
 Qed.
